@@ -753,11 +753,16 @@ def _execute(scn, keep_objects=False, prev_ctx=None):
     if scn.get('rules') or scn.get('empty_control'):
         ctx.control = g.motor_control.PWMControl(powertrain=pt)
         for i, rs in enumerate(scn.get('rules') or []):
+            if rs.get('from_run'):
+                # added to the same controller later, between two runs
+                H['rules_built'].append('later')
+                continue
             try:
                 ctx.control.add_rule(build_rule(ctx, i, rs))
                 H['rules_built'].append(None)
             except Exception as ex:      # noqa
                 H['rules_built'].append(_exc(ex))
+    ctx.run_ordinal = 0
     ctx.stops = []
     H['stops_built'] = []
     for ss in scn.get('stops', []):
@@ -777,6 +782,17 @@ def _execute(scn, keep_objects=False, prev_ctx=None):
                    'n_before': len(pt.time), 'seq': next_seq()}
             kind = op['op']
             if kind == 'run':
+                if ctx.control is not None:
+                    for i, rs in enumerate(scn.get('rules') or []):
+                        if rs.get('from_run') and \
+                                rs['from_run'] == ctx.run_ordinal:
+                            try:
+                                ctx.control.add_rule(build_rule(ctx, i, rs))
+                                H['rules_built'][i] = None
+                            except Exception as ex:      # noqa
+                                H['rules_built'][i] = _exc(ex)
+                rec['run_ordinal'] = ctx.run_ordinal
+                ctx.run_ordinal += 1
                 if solver is None or op.get('solver') == 'new':
                     solver = g.solver.Solver(powertrain=pt)
                     solver_id += 1
